@@ -112,6 +112,8 @@ class IdSetWorld(object):
                 return bool(a.isdisjoint(b)), ""
             elif op == "bool":
                 return bool(a), ""
+            elif op == "eq":
+                return bool(a == b), ""
             else:
                 raise ValueError(op)
             return 0, ""
@@ -127,10 +129,10 @@ MUT_OPS = {
     "BitSet": ["add", "discard", "update", "intersection_update", "difference_update",
                "invert_update", "clear", "union", "intersection", "difference", "invert",
                "copy", "contains", "len", "iter", "first", "last", "before", "after",
-               "isdisjoint", "bool"],
+               "isdisjoint", "bool", "eq"],
     "SortedIntSet": ["add", "discard", "update", "intersection_update", "difference_update",
                      "clear", "union", "intersection", "difference", "copy", "contains",
-                     "len", "iter", "first", "last", "before", "after", "isdisjoint", "bool"],
+                     "len", "iter", "first", "last", "before", "after", "isdisjoint", "bool", "eq"],
     "OnDiskBitSet": ["contains", "len", "iter", "first", "last", "before", "after", "bool"],
     "ReverseIdSet": ["add", "discard", "contains", "len", "iter", "first", "last"],
     "MultiIdSet": ["contains", "len", "iter"],
@@ -217,7 +219,7 @@ def gen_idset_trace(rng, kind, maxid, nops):
                 e["n"] = rng.choice([0, maxid, maxid + 9])
         elif op == "update":
             e["xs"] = rand_ids(rng.randrange(0, 5))
-        elif op in ("intersection_update", "difference_update", "isdisjoint", "union",
+        elif op in ("intersection_update", "difference_update", "isdisjoint", "eq", "union",
                     "intersection", "difference"):
             e["p"] = rng.choice(targets)
         if op in ("union", "intersection", "difference", "invert", "copy"):
@@ -277,7 +279,7 @@ def check_idset(run, quick):
                 run.count()
                 exp = e["res"]
                 if err or (e["op"] in ("contains", "len", "iter", "first", "last", "before",
-                                       "after", "isdisjoint", "bool") and got != exp):
+                                       "after", "isdisjoint", "bool", "eq") and got != exp):
                     sig = {"check": "idset-replay", "cls": kd, "op": e["op"], "err": err,
                            "other": type(w.objs.get(e["p"])).__name__ if e["p"] else ""}
                     run.violation(sig, {"behaviour": beh, "step": i, "mix": [first, rest],
